@@ -56,7 +56,23 @@ def r15a(ctx):
     ok = delta[0] in ('len', 'call') and flow.mentions(delta, lambda z: z == ('field', pushed, 'data'))
     ctx.check(ok, 'R15a', fn, 'delta=pushed', '%s:%d' % (a.body['file'], uln), 'the size added is the byte length of the chunk that is pushed (%s)' % flow.show(delta))
     cuts = a.calls(CUT)
-    cut_out = [e for c in cuts for e in a.cfg.out_edges(c)]
+    # a cut may also happen inside an awaited helper of the deduper all of whose successful returns pass cut_new_xorb
+    helper_cuts = []
+    from .core import strip_generics
+    for cb in a.calls():
+        t_ = a.term(cb)
+        q = ctx.cg.norm.get(strip_generics(t_.get('res') or t_.get('fn') or ''))
+        hb = ctx.F.bodies.get((q or '') + '::{closure#0}') or (ctx.F.bodies.get(q) if q else None)
+        if hb is None or hb['crate'] != 'deduplication' or q == CUT or hb['qpath'] == PC:
+            continue
+        if hb.get('coroutine') and a.awaited(cb) is None:
+            continue
+        ah = an(hb)
+        hc = ah.calls(CUT)
+        oks = [b_ for (b_, si_, k_, e_) in ah.ret_sites() if k_ != 'err']
+        if hc and oks and all(ah.cfg.must_pass(b_, via_blocks=hc) for b_ in oks):
+            helper_cuts.append((cb, ah, hc))
+    cut_out = [e for c in cuts for e in a.cfg.out_edges(c)] + [e for (cb, _, _) in helper_cuts for e in a.cfg.out_edges(cb)]
     okb = edges_where(a, lambda op, l, r: within(op) and l[0] == 'bin' and l[1] in ('Add', 'AddO') and flow.show(l[2]) == 'self.new_data_size' and flow.eqv(l[3], delta) and is_limit(r, 'MAX_XORB_BYTES'))
     okc = edges_where(a, lambda op, l, r: within(op) and l[0] == 'bin' and l[1] in ('Add', 'AddO') and l[2][0] == 'call' and sg(l[2][1]).endswith('Vec::len') and flow.show(l[2][2][0]) == 'self.new_data'
                       and l[3] == ('const', 1, 'usize') and is_limit(r, 'MAX_XORB_CHUNKS'))
@@ -77,9 +93,11 @@ def r15a(ctx):
             ctx.check(P not in r, 'R15a', fn, '%s exceed -> cut' % nm, a.loc(x), 'from the exceeding edge of the %s check the push is reachable only through cut_new_xorb' % nm,
                       'the exceeding edge of the %s check can reach the push without cutting the xorb' % nm)
     # the cut xorb is registered (uploaded); covered by C16-R16c for error propagation
-    for c in cuts:
-        rn = [r_ for r_ in a.calls('deduplication::interface::DeduplicationDataInterface::register_new_xorb') if a.rooted_at(a.arg(r_, 1), c)]
-        ctx.check(len(rn) == 1 and a.awaited(rn[0]) is not None, 'R15a', fn, 'cut -> register', a.loc(c), 'the xorb cut here is handed to register_new_xorb')
+    for (aa, cs) in [(a, cuts)] + [(ah, hc) for (_, ah, hc) in helper_cuts]:
+        for c in cs:
+            rn = [r_ for r_ in aa.calls('deduplication::interface::DeduplicationDataInterface::register_new_xorb') if aa.rooted_at(aa.arg(r_, 1), c)]
+            ctx.check(len(rn) == 1 and aa.awaited(rn[0]) is not None, 'R15a', aa.path, 'cut -> register', aa.loc(c), 'the xorb cut here is handed to register_new_xorb')
+    ctx.floor('R15a', 'cut sites (cut_new_xorb, directly or in an awaited helper) in the accounting loop', len([c for c in cuts if c in lp[1]]) + len([1 for (cb, _, _) in helper_cuts if cb in lp[1]]), 1)
     # cut_new_xorb resets
     c = an(ctx.F.body(CUT))
     clears = [x for x in c.calls('alloc::vec::Vec::clear') if flow.show(c.arg(x, 0)) == 'self.new_data']
@@ -212,16 +230,12 @@ def r15e(ctx):
     gt_u = edges_where(v, lambda op, l, r: op == 'Gt' and flow.mentions(l, lambda z: z[0] == 'call' and sg(z[1]).endswith('get_uncompressed_length')))
     errs = [b for (b, si, k, e) in v.ret_sites() if k == 'err']
     oks = [b for (b, si, k, e) in v.ret_sites() if k == 'ok']
-    le_c = edges_where(v, lambda op, l, r: op == 'Le' and flow.mentions(l, lambda z: z[0] == 'call' and sg(z[1]).endswith('get_compressed_length')))
-    le_u = edges_where(v, lambda op, l, r: op == 'Le' and flow.mentions(l, lambda z: z[0] == 'call' and sg(z[1]).endswith('get_uncompressed_length')))
-    ok = bool(le_c) and bool(le_u) and bool(oks) and all(v.cfg.must_pass(b, via_edges=le_c) and v.cfg.must_pass(b, via_edges=le_u) for b in oks)
-    ctx.check(ok, 'R15e', v.path, 'bounds', '-', 'CASChunkHeader::validate returns Ok only on the within-bound edges of both the compressed and the uncompressed length',
-              'CASChunkHeader::validate can accept a header whose length exceeds the bound')
-    # the bounds derive from MAXIMUM_CHUNK_SIZE (evaluated constants appear as literals: check the two literal bounds)
-    lits = set()
-    for b in sorted(v.cfg.reach0):
-        ce = __import__('xl.core', fromlist=['cond_edges']).cond_edges(v, b)
-        if ce and flow.const_eval(ce[2]) is not None:
-            lits.add(flow.const_eval(ce[2]))
     m = int(c['v']) if c else -1
-    ctx.check({m, 2 * m} <= lits, 'R15e', v.path, 'bound values', '-', 'the bounds are MAXIMUM_CHUNK_SIZE (%d) for the uncompressed and 2x for the compressed length: %s' % (m, sorted(lits)))
+
+    def bounded(getter, bound):
+        return lambda op, l, r: op == 'Le' and flow.mentions(l, lambda z: z[0] == 'call' and sg(z[1]).endswith(getter)) and flow.const_eval(r) == bound
+    le_c = edges_where(v, bounded('get_compressed_length', 2 * m))
+    le_u = edges_where(v, bounded('get_uncompressed_length', m))
+    ok = bool(le_c) and bool(le_u) and bool(oks) and all(v.cfg.must_pass(b, via_edges=le_c) and v.cfg.must_pass(b, via_edges=le_u) for b in oks)
+    ctx.check(ok, 'R15e', v.path, 'bounds', '-', 'CASChunkHeader::validate returns Ok only on the edges compressed length <= 2*MAXIMUM_CHUNK_SIZE (%d) and uncompressed length <= MAXIMUM_CHUNK_SIZE (%d)' % (2 * m, m),
+              'CASChunkHeader::validate can accept a header whose length exceeds the bound (uncompressed <= MAXIMUM_CHUNK_SIZE, compressed <= 2x)')
